@@ -669,6 +669,7 @@ private:
             for_each_tuple<P>(m_dims,
                               [&](const std::array<ts, P>& idx)
                               {
+                                  at(idx);
                                   const auto off = offset_of(idx);
                                   std::apply(
                                       [&](auto... i)
@@ -676,6 +677,9 @@ private:
                                           if (path == 0)
                                           {
                                               auto v = t.vector(i...);
+                                              REQ(v.data() == base + off && v.size() == sz, "vector/address",
+                                                  "vector(prefix) before writing: starts at data+, expected data+, size, expected size", v.data() - base, off,
+                                                  v.size(), sz);
                                               for (ts j = 0; j < sz; ++j)
                                               {
                                                   v(j) = val<T>(off + j, m_salt);
@@ -684,6 +688,7 @@ private:
                                           else if (path == 1)
                                           {
                                               auto a = t.array(i...);
+                                              REQ(a.size() == sz, "array/size", "array(prefix) before writing: size, expected size", a.size(), sz);
                                               for (ts j = 0; j < sz; ++j)
                                               {
                                                   a(j) = val<T>(off + j, m_salt);
@@ -692,6 +697,9 @@ private:
                                           else if (path == 2)
                                           {
                                               auto s = t.tensor(i...);
+                                              REQ(s.data() == base + off && s.size() == sz, "tensor/address",
+                                                  "tensor(prefix) before writing: starts at data+, expected data+, size, expected size", s.data() - base, off,
+                                                  s.size(), sz);
                                               for (ts j = 0; j < sz; ++j)
                                               {
                                                   s(j) = val<T>(off + j, m_salt);
@@ -701,6 +709,9 @@ private:
                                           {
                                               auto       m    = t.matrix(i...);
                                               const auto cols = m_dims[R - 1];
+                                              REQ(m.data() == base + off && m.rows() == m_dims[R - 2] && m.cols() == cols, "matrix/address",
+                                                  "matrix(prefix) before writing: starts at data+, expected data+, rows, cols", m.data() - base, off, m.rows(),
+                                                  m.cols());
                                               for (ts r = 0; r < m_dims[R - 2]; ++r)
                                               {
                                                   for (ts c = 0; c < cols; ++c)
@@ -736,6 +747,7 @@ private:
             ++m_salt;
             auto r   = std::apply([&](auto... s) { return t.reshape(s...); }, f);
             ts   lin = 0;
+            REQ(r.data() == base && r.dims() == f, "reshape/address", "reshape(...) before writing: wrong address or extents; size, expected", r.size(), m_size);
             for_each_tuple<K>(f,
                               [&](const std::array<ts, K>& idx)
                               {
@@ -760,10 +772,18 @@ private:
         for_each_tuple<R>(m_dims,
                           [&](const std::array<ts, R>& idx)
                           {
-                              std::apply([&](auto... i) { t(i...) = val<T>(lin, m_salt); }, idx);
+                              at(idx);
+                              std::apply(
+                                  [&](auto... i)
+                                  {
+                                      REQ(t.offset(i...) == lin, "offset/not-row-major", "offset(tuple) before writing: got, expected", t.offset(i...), lin);
+                                      t(i...) = val<T>(lin, m_salt);
+                                  },
+                                  idx);
                               mirror[static_cast<size_t>(lin)] = val<T>(lin, m_salt);
                               ++lin;
                           });
+        at_none();
         for (ts k = 0; k < m_size; ++k)
         {
             REQ(base[k] == mirror[static_cast<size_t>(k)], "index/write-address",
@@ -785,6 +805,8 @@ private:
             ++m_salt;
             const auto off = b * m_stride[0];
             auto       s   = t.slice(b, e);
+            REQ(s.data() == base + off && s.size() == (e - b) * m_stride[0], "slice/address",
+                "slice(b,e) before writing: b, e, starts at data+, expected data+, size", b, e, s.data() - base, off, s.size());
             for (ts j = 0, n = (e - b) * m_stride[0]; j < n; ++j)
             {
                 s(j)                                  = val<T>(off + j, m_salt);
